@@ -194,11 +194,12 @@ func (c *converter) ProgramEnd() error {
 			c.callFuncString(sliceLenGetHelper, []string{}, "!%1!"), // Get current slice length.
 			`set "_i=!_len!"`,
 			":_sah_loop",
-			`if "!_i!" lss "%2" (`,
+			`if !_i! lss %2 (`, // Compare numerically (quoted operands are compared as strings, "10" lss "9").
 			c.sliceAssignmentString("!%1!", "!_i!", "%3", false),
 			`set /A "_i=!_i!+1"`,
 			"goto :_sah_loop",
-			") else (",
+			")",
+			`if !_i! leq %2 (`, // Only grow the slice, an assignment to an existing index must not shrink it.
 			`set /A "_len=%2+1"`,
 			c.callFuncString(sliceLenSetHelper, []string{}, "!%1!", "!_len!"),
 			")",
